@@ -322,7 +322,7 @@ func genFilterCases(rng *rand.Rand, tier string, emit func(*Case)) {
 	randPer := 30
 	innerN := 3
 	if tier == "thorough" {
-		randPer = 400
+		randPer = 250
 		innerN = 4
 	}
 	for i := range respTypes {
